@@ -182,6 +182,8 @@ def gen(rng, tier):
             continue
         base = tokgen.ttext(toks)
         valend = len(base.rstrip(b" \t\r\n"))
+        sig = [t for t in toks if t[0] != "ws"]
+        container_doc = bool(sig) and sig[0][0] == "open" and sig[-1][0] == "close"
         # the base document itself: accepted in all three modes with the specified value
         for flags, mode in ((0, "default"), (STRICT, "base-strict"), (STRICT | TRAIL, "base-strict")):
             yield {"lines": ["new 32 %d" % flags, "pz " + hexs(base)], "keep": 2, "noshrink": True,
@@ -195,6 +197,11 @@ def gen(rng, tier):
                        "expect": {"mode": "strict-trailing", "kind": kind, "val": a["dump"], "valend": valend, "trailstart": len(text) - how[1]}}
             yield {"lines": ["new 32 %d" % STRICT, "pz " + hexs(text)], "keep": 2, "noshrink": True,
                    "expect": {"mode": "strict", "kind": kind}}
+            if kind not in ("comment", "trailing") and container_doc:
+                # an extension inside a container is inside the value: allowing bytes *after* the value does not allow it
+                # (round-8 seed C16-13: trailing commas accepted under exactly STRICT|ALLOW_TRAILING_CHARS)
+                yield {"lines": ["new 32 %d" % (STRICT | TRAIL), "pz " + hexs(text)], "keep": 2, "noshrink": True,
+                       "expect": {"mode": "strict", "kind": kind}}
             # byte-wise feeding: only for extensions inside the value (a call that completes the value at a chunk
             # boundary legitimately succeeds before it can see what follows)
             if len(text) <= 40 and 0 not in text and kind not in ("comment", "trailing"):
